@@ -252,9 +252,9 @@ class Gen:
             elif depth > 0 and 'media' in self.f and k < 0.5 and media_depth < 2:
                 out.append(('media', self.query(allow_type=(media_depth == 0)), self.body(depth - 1, in_rule, scopevars, media_depth + 1)))
             elif 'keyframes' in self.f and not in_rule and media_depth >= 1 and k < 0.6:
-                out.append(self.keyframes())
+                out.append(self.keyframes(scopevars))
             elif 'fontface' in self.f and not in_rule and media_depth >= 1 and k < 0.68:
-                out.append(('fontface', [self.decl([]) for _ in range(r.choice([1, 2]))]))
+                out.append(self.fontface(scopevars))
             elif in_rule:
                 d = self.decl(scopevars)
                 used_here.update(it[1] for it in d[2] if it[0] == 'var')
@@ -263,9 +263,18 @@ class Gen:
                 out.append(self.rule(max(depth - 1, 0), False, scopevars, media_depth))
         return out
 
-    def keyframes(self):
+    def fontface(self, scopevars=()):
         r = self.rng
-        frames = [(r.choice(['from', 'to', '50%', '0%', '100%', '33.3%']), [self.decl([]) for _ in range(r.choice([1, 2]))]) for _ in range(r.choice([1, 2, 3]))]
+        sv = list(scopevars) if 'var' in self.f else []
+        decls = [self.decl(sv) for _ in range(r.choice([1, 2, 3]))]
+        if 'viewport' in self.f and r.random() < 0.4:
+            return ('viewport', r.choice(['@viewport', '@-ms-viewport']), decls)
+        return ('fontface', decls)
+
+    def keyframes(self, scopevars=()):
+        r = self.rng
+        sv = list(scopevars) if 'var' in self.f else []          # variables are still evaluated inside the frames
+        frames = [(r.choice(['from', 'to', '50%', '0%', '100%', '33.3%']), [self.decl(sv) for _ in range(r.choice([1, 2]))]) for _ in range(r.choice([1, 2, 3]))]
         return ('keyframes', r.choice(['@keyframes', '@-webkit-keyframes', '@-moz-keyframes', '@-o-keyframes', '@-ms-keyframes']), r.choice(['spin', 'fade', 'k1']), frames)
 
     def rule(self, depth, nested, scopevars, media_depth=0):
@@ -398,9 +407,9 @@ class Gen:
             elif 'media' in self.f and k < 0.3:
                 out.append(('media', self.query(), self.body(max(depth - 1, 1), False, scopevars, 1)))
             elif 'keyframes' in self.f and k < 0.36:
-                out.append(self.keyframes())
+                out.append(self.keyframes(scopevars))
             elif 'fontface' in self.f and k < 0.40:
-                out.append(('fontface', [self.decl([]) for _ in range(r.choice([1, 2, 3]))]))
+                out.append(self.fontface(scopevars))
             elif 'stmt' in self.f and k < 0.44:
                 out.append(('stmt', r.choice(STMTS)))
             else:
@@ -521,6 +530,8 @@ def show_stmts(stmts, L, last_semicolon=True):
             out += L.stmt_gap() + '}'
         elif k == 'fontface':
             out += '@font-face' + L.blank() + '{' + show_stmts(s[1], L) + L.stmt_gap() + '}'
+        elif k == 'viewport':
+            out += s[1] + L.blank() + '{' + show_stmts(s[2], L) + L.stmt_gap() + '}'
         elif k == 'stmt':
             out += ''.join(s[1])
         elif k == 'mixin':
@@ -669,6 +680,8 @@ def tree_stmts(stmts):
             out.append('NBlock %s %s' % (coq_list(coq_str(t) for t in [s[1], ' ', s[2], ' ']), coq_list(frames)))
         elif k == 'fontface':
             out.append('NBlock %s %s' % (coq_list(coq_str(t) for t in ['@font-face', ' ']), coq_list(tree_stmts(s[1]))))
+        elif k == 'viewport':
+            out.append('NBlock %s %s' % (coq_list(coq_str(t) for t in [s[1], ' ']), coq_list(tree_stmts(s[2]))))
         elif k == 'stmt':
             out.append('NStmt %s' % coq_list(coq_str(t) for t in s[1]))
         elif k == 'mixin':
